@@ -55,7 +55,7 @@ def source_strategy(tier, doc_kw=None, weights=(14, 3, 3), gen_max_hosts=None):
     small = [n for n in names if n.startswith("tiny") or n.startswith("small")]
     pool = small * 3 + names if tier == "thorough" else small * 4 + names
     s = st.builds(lambda n: {"kind": "shipped", "name": n}, st.sampled_from(pool))
-    mh = gen_max_hosts or (30 if tier == "thorough" else 12)
+    mh = gen_max_hosts or (40 if tier == "thorough" else 20)
     g = st.builds(lambda p: {"kind": "gen", "params": p},
                   sources.gen_params(max_hosts=mh, max_services=5))
     return weighted([(weights[0], d), (weights[1], s), (weights[2], g)])
